@@ -71,7 +71,7 @@ def register(PROPS, COMPONENTS):
                         sp[k] = sp[k] + [x]
 
     COMPONENTS["latch"] = dict(client="latch", driver="latch", directed_runs=6, quick_runs=400, thorough_runs=30000,
-                               oracle=oracle_latch)
+                               oracle=oracle_latch, cov_headers=["gmlc/concurrency/Latch.hpp"])
     PROPS["C10"] = dict(
         lean_files=["ConcVerif/Props/C10.lean"], components=["latch"], stage="A",
         level_text="Lean 4 theorems (kernel-checked, unbounded threads/calls/interleavings, spurious wake-ups included) over an "
